@@ -28,7 +28,7 @@ REQUIRED = {"parse.faithful": {"quick": 1500, "thorough": 100000}, "alias.recogn
             "parse_file.language_header": {"quick": 80, "thorough": 2000}, "fragment.steps": {"quick": 300, "thorough": 15000},
             "fragment.scenario": {"quick": 300, "thorough": 15000}, "fragment.rule": {"quick": 100, "thorough": 5000},
             "fragment.tags": {"quick": 300, "thorough": 15000}}
-REQUIRED_SEEN = {"language": 80}
+REQUIRED_SEEN = {"language": 80, "file_form": ["lf", "crlf", "bom", "bom+crlf", "cr"]}
 EXHAUSTIVE = True
 EXHAUSTIVE_SCOPE = "all 80 languages x every alias of every keyword (one document each); layouts and trees are sampled"
 NSHARDS = {"quick": 16, "thorough": 16}
@@ -219,9 +219,21 @@ def check_doc(mon, lab, lang, kws, rng, layout, monitor="parse.faithful", force_
     try:
         if via_file:
             fd, path = tempfile.mkstemp(suffix=".feature", prefix="bvm-")
+            # how the very same text may sit in a file: line endings of another platform, a byte-order mark written by an editor
+            file_form = rng.choice(["lf", "lf", "crlf", "bom", "bom+crlf", "cr"])
+            data = text
+            if "crlf" in file_form:
+                data = data.replace("\n", "\r\n")
+            elif file_form == "cr":
+                data = data.replace("\n", "\r")
+            raw = data.encode("utf-8")
+            if "bom" in file_form:
+                raw = b"\xef\xbb\xbf" + raw
+            case["file_form"] = file_form
+            mon.seen("file_form", file_form)
             try:
                 with os.fdopen(fd, "wb") as fh:
-                    fh.write(text.encode("utf-8"))
+                    fh.write(raw)
                 m = lab["parse_file"](path)
             finally:
                 os.remove(path)
